@@ -131,13 +131,46 @@ def groups_cases(rng, tier):
 
 
 MARKER_CFG = "SPECIFICATION TraceSpec\nCHECK_DEADLOCK FALSE\n"
+NEARBY_MC = ("SPECIFICATION Spec\nCHECK_DEADLOCK FALSE\nCONSTANTS\n  Groups = {{1, 2}}\n  Vals = {{0, 1, 2, 3}}\n  MaxRows = {rows}\n  MaxDiffs = {{0, 1}}\n"
+             "  NullKeyIsLastGroup = {dev}\nINVARIANT NearbyIsDef\nPROPERTY NullKeyIsStutter\n")
+NEARBY_TRACE = ("SPECIFICATION TraceSpec\nCHECK_DEADLOCK FALSE\nCONSTANTS\n  Groups = {1, 2, 3, 4}\n  Vals = {0}\n  MaxRows = 0\n  MaxDiffs = {0}\n"
+                "  NullKeyIsLastGroup = FALSE\n")
+
+
+def nearby_pairs(rng, tier):
+    """group_nearby_members with every null placement: (with nulls, null rows deleted)."""
+    out = []
+    for n in range(1, 6 if tier == "quick" else 7):
+        for ks in itertools.product([NULL, 1, 2], repeat=n):
+            if NULL not in ks or (n >= 4 and rng.random() < (0.6 if n == 4 else 0.85)):
+                continue
+            vals, v = [], 0
+            for _ in range(n):
+                v += rng.pick([0, 1, 1, 2, 3])
+                vals.append(v)
+            c = dict(keys=list(ks), vals=vals, maxdiff=rng.pick([0, 1, 2]), vdt=rng.pick(["float64", "int64"]))
+            r = rng.random()
+            if r < 0.3:
+                c["level"] = "numba"
+            else:
+                c["kenc"] = rng.pick(["f64", "str", "M8", "cat"])
+                c["kcont"] = rng.pick(["np", "series"])
+                if n >= 2 and rng.random() < 0.4 and not c["kenc"].startswith("cat") and not (c["kenc"] == "str" and ks[0] == NULL):
+                    c["T"] = 2
+                c["pre"] = rng.pick([[], [], ["groups"], ["cumsum"], ["sum", "groups"]])
+            keep = [i for i, k in enumerate(ks) if k != NULL]
+            f = dict(c, keys=[ks[i] for i in keep], vals=[vals[i] for i in keep], pair="deleted")
+            if f.get("T") and f.get("kenc") == "str" and f["keys"] and f["keys"][0] == NULL:
+                f.pop("T")
+            out.append((c, f))
+    return out
 
 
 def run(tier):
     ck = CheckRun("C06", tier, rule=(
         "with-null / null-rows-deleted call pairs: reductions and transform with nulls at every subset of row positions "
         "(single key, length <= 4 (5)) and in every component of 2- and 3-key tuples, flat and chunked keys; cumulative, "
-        "rolling/shift/diff, EMA (plain and timed), head/tail/nth and the groups mapping with every null placement up to "
+        "rolling/shift/diff, EMA (plain and timed), head/tail/nth, group_nearby_members and the groups mapping with every null placement up to "
         "length 4 (5) plus random longer rows.  Both calls of a pair are validated by TLC against the same specification "
         "(where a null-key row is a stutter of every machine); the values observed at null-key rows are collected per "
         "(operation, dtype, entry point) and TLC checks that they are one constant."))
@@ -150,6 +183,9 @@ def run(tier):
     ck.mc_bg("GBFactorize", C02.MC.format(labels="{1, 2}", nkeys=2, rows=3, chunks=1, d3="FALSE", d6="FALSE", d2="TRUE"), "neg_last_key_null", expect="FinalFaithful", workers=1)
     ck.mc_bg("GBFactorize", C02.MC.format(labels="{1, 2}", nkeys=1, rows=4, chunks=2, d3="FALSE", d6="TRUE", d2="FALSE"), "neg_unify_wraps_null", expect="FinalFaithful", workers=1)
 
+    ck.mc_bg("GBNearby", NEARBY_MC.format(rows=4 if tier == "quick" else 5, dev="FALSE"), "nearby_null_stutter", workers=4)
+    ck.mc_bg("GBNearby", NEARBY_MC.format(rows=3, dev="TRUE"), "neg_nearby_null_is_last_group", expect="NearbyIsDef", workers=1)
+
     sched.install()
     nmax = 4 if tier == "quick" else 5
     extra = 500 if tier == "quick" else 6000
@@ -160,6 +196,7 @@ def run(tier):
         "ema": (rowwise_pairs(rng, tier, lambda r, k, v, s: C10.mk(r, k, v, s, entry=r.pick(["ema_grouped", "gb"])), nmax, extra), rowwise.run_ema, "Trace_GBEma", C10.trace_cfg(md="TRUE")),
         "select": (select_pairs(rng, tier), rowwise.run_select, "Trace_GBSelect", C15.TRACE_CFG),
         "groups": (groups_cases(rng, tier), factorize.run_case, "Trace_GBFactorize", C02.TRACE_CFG),
+        "nearby": (nearby_pairs(rng, tier), rowwise.run_nearby, "Trace_GBNearby", NEARBY_TRACE),
     }
     markers = {}
     for name, (pairs, fn, tmod, cfg) in fams.items():
@@ -198,6 +235,17 @@ def replay(path):
     fam = t.get("family", "reduce")
     if fam == "groups":
         return C02.replay(path)
+    if fam == "nearby":
+        from .. import tlc
+        case = dict(t["cfg"], keys=t["keys"], vals=t["vals"], maxdiff=t["maxdiff"])
+        tr = rowwise.run_nearby(case)
+        acc, _, _ = tlc.validate("Trace_GBNearby", [tr], "C06_replay", NEARBY_TRACE)
+        print(json.dumps(tr)[:1500])
+        if 0 in acc:
+            print("replay: trace accepted by the specification")
+            return 0
+        print(f"VIOLATION property=C06 replay={path}")
+        return 1
     mod = {"reduce": C01, "cum": C08, "roll": C09, "ema": C10, "select": C15}.get(fam)
     if mod is None:
         print("marker traces are aggregates over a run; re-run the check")
